@@ -102,7 +102,8 @@ native_unit("security_native", "winter-air", "air", "native/security_bounded.rs"
             timeout=1800)
 
 
-verus_unit("divisorv", "divisorv", ["C16"], [
+verus_unit("divisorv", "divisorv", ["C16", "C17"], [
+    "TransitionConstraints::new (every number of main / auxiliary constraints: the first num_main composition coefficients go to the main constraints, the following num_aux to the auxiliary ones, the degrees are the context's, the divisor is from_transition(trace length, the context's exemption count); the assertion is the documented pre-condition)",
     "ConstraintDivisor::from_assertion (every power-of-two trace length, every validated single / periodic / sequence assertion: the divisor is x^k - g^(k * first_step) with k the number of asserted steps and no exemptions; k * first_step stays inside the trace domain)",
     "divisor::get_trace_domain_value_at (g^step for the trace-domain generator; its debug assertion holds at every call)",
     "ConstraintDivisor::new",
